@@ -105,7 +105,7 @@ def run(chk, orch):
         wls = []
         fixed = [
             # exact duplicate records in every experiment (process-wide bookkeeping of the duplicate filter)
-            ({"seed": 31, "n_chr": 3, "n_exp": 2, "exp_mode": "same", "paralogs": 1, "novel": 1, "unmapped": 3, "dup_records": 3,
+            ({"seed": 31, "n_chr": 3, "n_exp": 2, "exp_mode": "same", "paralogs": 1, "novel": 1, "unmapped": 3, "dup_records": 7,
               "frag_gene": 1, "genes_per_chr": 4}, {}),
             ({"seed": 32, "n_chr": 3, "n_exp": 3, "exp_mode": "split", "paralogs": 1, "novel": 2, "groups": 3, "unmapped": 2},
              {"read_group": "tag"}),
